@@ -1224,8 +1224,8 @@ def gen_conflict(seed, k):
     return c
 
 
-def impl_transcript(impl_dir, case):
-    rc, o, e = common.run_cb(impl_dir, to_cb(case), timeout=10)
+def impl_transcript(impl_dir, case, timeout=15):
+    rc, o, e = common.run_cb(impl_dir, to_cb(case), timeout=timeout)
     tr = parse_transcript(o)
     err = e.strip().split("\n")[0][:160] if e.strip() else ""
     if rc != 0:
@@ -1260,7 +1260,7 @@ def run(rep):
             c = load_case(c)
             c["origin"] = "corpus"
             cases.append(c)
-    n_rand = 1500 if tier == "quick" else 24000
+    n_rand = 1500 if tier == "quick" else 60000
     maxlen = 60 if tier == "quick" else 90
     avoided = {}
     n_avoid_total = 0
@@ -1271,7 +1271,7 @@ def run(rep):
         for c, av in ex.map(_gen_job, jobs, chunksize=50):
             cases.append(c)
             n_avoid_total += av
-    n_conf = 60 if tier == "quick" else 1500
+    n_conf = 60 if tier == "quick" else 3000
     for k in range(n_conf):
         cases.append(gen_conflict(seed, k))
 
@@ -1290,6 +1290,16 @@ def run(rep):
     itr = common.pmap(lambda c: impl_transcript(impl, c), cases)
 
     bad = [(c, m, i) for c, (s_, m), i in zip(cases, mres, itr) if i != m]
+    # the interpreter is deterministic: a disagreement that does not persist when the program is run again, alone,
+    # was a timeout / truncated pipe under machine load, not a property of the code
+    retried = []
+    for c, m, i in bad[:200]:
+        i2 = impl_transcript(impl, c, timeout=40)
+        if i2 == m:
+            rep.notes.append("a program disagreed once under load and agreed when re-run alone (first: %s)" % (i[-1:],))
+            continue
+        retried.append((c, m, i2))
+    bad = retried + bad[200:]
     distinct = {}
     hist_roles, hist_origin = {}, {}
     for c in cases:
@@ -1346,6 +1356,11 @@ def run(rep):
         if not f.get("mech_modelled") and f["kind"] != "restriction" and \
                 not any(avoid_id(s) == f["signature"]["avoid_rule"] for s in case_sigs(case)):
             rep.notes.append("finding %s is not covered by its avoidance rule" % f["id"])
+    if tier == "thorough" and hasattr(common, "coqchk"):
+        okc, summ = common.coqchk(PROP)
+        rep.coverage["coqchk"] = {"ok": okc, "context_summary": summ[:1500]}
+        if not okc:
+            rep.violation("coqchk", {"output": summ[-3000:]}, "coqchk rejects the compiled C07 development", True)
     rep.assumptions += [
         "the double representation of struct values (member map + flattened variables) is not modelled; the main stream avoids "
         "the forms on which it misbehaves (18 rules, props/c07.py AVOID), each documented by a replayed known finding",
@@ -1430,7 +1445,11 @@ def report_disagreement(rep, impl, case):
 def replay(path):
     data = json.load(open(path))
     c = data["case"]
-    case = load_case(c["case"] if "case" in c else c)
+    inner = c["case"] if isinstance(c, dict) and "case" in c else c
+    if not (isinstance(inner, dict) and "ops" in inner):
+        print(json.dumps(data, indent=1)[:4000])       # a broken proof obligation / build problem: no program to run
+        return 1
+    case = load_case(inner)
     common.ensure_model(PROP)
     impl = common.build_impl("plain")
     (sp, me), = model_run([case])
